@@ -126,6 +126,20 @@ func propC17(run *Run, n int) {
 		if len(cfg.SetKeys) > 0 && r.Chance(1, 5) {
 			// a keyed member changes in one, two or three non-key fields (several hunks under one keyed path element)
 			a = cfg.Arr(r, 0)
+			if r.Chance(1, 3) {
+				// one member that carries NONE of the set keys (its path object is the whole member)
+				for _, e := range a.A {
+					if e.K == KObj {
+						for _, k := range cfg.SetKeys {
+							delete(e.O, k)
+						}
+						e.O["a"] = VNum(1)
+						e.O["b"] = VNum(1)
+						run.Count("v1:keyless-member")
+						break
+					}
+				}
+			}
 			b = a.Clone()
 			for _, e := range b.A {
 				if e.K != KObj || r.Chance(1, 3) {
@@ -258,10 +272,11 @@ func addC17TextHalf(run *Run, c *Case, m V1Meta, inDomain, memOK bool, aw, bw, d
 		} else if !strings.HasPrefix(th.patch, "ok ") {
 			what = "after Render and ReadDiffString, Patch returns an error on the library's own diff"
 		}
+		_ = what
 		if memOK && v1KeyedPathClass(m, dw) && strings.HasPrefix(th.read, "ok ") {
-			c.Probes = append(c.Probes, Probe{Kind: "direct", Rel: rel, Want: "kf KF-C17-keyedpath " + what})
-			run.Count("text_half:keyedpath")
-		} else {
+			run.Count("text_half:keyedpath-shape")
+		}
+		{
 			// not in the keyed-path class, or the in-memory half fails too: the class predicates of the
 			// driver decide (hash aliases, -0, precision, Setkeys precondition, then the keyed-path class)
 			c.Probes = append(c.Probes,
